@@ -387,7 +387,9 @@ def dunder_scenarios():
     import glom
     T, S, Path = glom.T, glom.S, glom.Path
     return [T.__('class__'), T.__('class__').__('name__'), T.a.__('b__')['c'], S.__('x__'), S.v.__('len__')(), T[T.__('k__')],
-            T(T.__('k__'), key=T.a.__('z__')), Path('a', T.__('len__')), Path(T.__('dict__'), 'k'), T.__star__().__('doc__')]
+            T(T.__('k__'), key=T.a.__('z__')), Path('a', T.__('len__')), Path(T.__('dict__'), 'k'), T.__star__().__('doc__'),
+            # every name that BEGINS with two underscores is reserved by T.__getattr__, whatever it ends with
+            T.__('x'), T.__('secret').k, T.a.__('b_'), S.__('v'), Path('a', T.__('x')), T.__(''), T.__('_'), T[T.__('x')], T(T.__('x'))]
 
 
 def run_dunder(case):
